@@ -12,6 +12,7 @@ import (
 	"context"
 	"fmt"
 	"io"
+	"math"
 	"sort"
 	"strings"
 	"time"
@@ -33,6 +34,9 @@ type stepOut struct {
 type stepErr struct {
 	Code int64 `json:"code"`
 }
+type stepStats struct {
+	Ratio float64 `json:"ratio"`
+}
 
 func strProp() *schema.PropertySchema {
 	return schema.NewPropertySchema(schema.NewStringSchema(nil, nil, nil), nil, true, nil, nil, nil, nil, nil)
@@ -43,6 +47,8 @@ func newPlugin() *schema.CallableSchema {
 	out := schema.NewScopeSchema(schema.NewStructMappedObjectSchema[stepOut]("Out", map[string]*schema.PropertySchema{"message": strProp()}))
 	errOut := schema.NewScopeSchema(schema.NewStructMappedObjectSchema[stepErr]("Err", map[string]*schema.PropertySchema{
 		"code": schema.NewPropertySchema(schema.NewIntSchema(schema.IntPointer(0), schema.IntPointer(10), nil), nil, true, nil, nil, nil, nil, nil)}))
+	statsOut := schema.NewScopeSchema(schema.NewStructMappedObjectSchema[stepStats]("Stats", map[string]*schema.PropertySchema{
+		"ratio": schema.NewPropertySchema(schema.NewFloatSchema(nil, nil, nil), nil, true, nil, nil, nil, nil, nil)}))
 	sigIn := schema.NewScopeSchema(schema.NewStructMappedObjectSchema[stepIn]("SigIn", map[string]*schema.PropertySchema{"mode": strProp()}))
 	sig := schema.NewCallableSignal[any, stepIn]("sig", sigIn, nil, func(_ context.Context, _ any, i stepIn) {
 		if i.Mode == "panic" {
@@ -53,6 +59,7 @@ func newPlugin() *schema.CallableSchema {
 		map[string]*schema.StepOutputSchema{
 			"success": schema.NewStepOutputSchema(out, nil, false),
 			"error":   schema.NewStepOutputSchema(errOut, nil, true),
+			"stats":   schema.NewStepOutputSchema(statsOut, nil, false),
 		},
 		map[string]schema.CallableSignal{"sig": sig}, nil, nil, nil,
 		func(_ context.Context, _ any, i stepIn) (string, any) {
@@ -65,6 +72,9 @@ func newPlugin() *schema.CallableSchema {
 				return "error", stepErr{Code: 99} // violates max 10
 			case "wrongtype":
 				return "success", stepErr{Code: 1}
+			case "inf":
+				// a schema-valid output that not every encoder setting can carry (a ratio with denominator 0)
+				return "stats", stepStats{Ratio: math.Inf(1)}
 			case "panic":
 				panic("step panics")
 			case "slow":
@@ -106,7 +116,7 @@ func sg(run, sig string, data any) []byte {
 var alphabet []item
 
 func init() {
-	for _, m := range []string{"success", "error", "undeclared", "badvalue", "wrongtype", "panic", "slow"} {
+	for _, m := range []string{"success", "error", "undeclared", "badvalue", "wrongtype", "panic", "slow", "inf"} {
 		alphabet = append(alphabet, item{Name: "start(r1," + m + ")", Bytes: ws("r1", "s", m), Run: "r1"})
 	}
 	alphabet = append(alphabet,
@@ -486,7 +496,7 @@ func main() {
 			}
 			return 150 * time.Second
 		},
-		Rule: fmt.Sprintf("client scripts = handshake + every sequence of N messages over an alphabet of %d valid/invalid items (work-starts with 7 step behaviours and an input the step's schema rejects, duplicate/unknown/empty ids, wrongly typed payloads, 7 signal variants, unknown message id, client-done, malformed CBOR, wrong envelope), optionally cut at every byte offset, then end of input; for each script every thread schedule within the delay bound; distinct = (shape, outcome) pairs", len(alphabet)),
+		Rule: fmt.Sprintf("client scripts = handshake + every sequence of N messages over an alphabet of %d valid/invalid items (work-starts with 8 step behaviours (one returns an infinite float) and an input the step's schema rejects, duplicate/unknown/empty ids, wrongly typed payloads, 7 signal variants, unknown message id, client-done, malformed CBOR, wrong envelope), optionally cut at every byte offset, then end of input; for each script every thread schedule within the delay bound; distinct = (shape, outcome) pairs", len(alphabet)),
 		Assumptions: []string{
 			"the client's input always ends (the property's 'once input has ended')",
 			"server output is drained by the client until the server returns; output-failure scripts only check no-panic/no-deadlock/returns",
